@@ -72,6 +72,7 @@ def run(ctx, prove=True):
     flavour_c = collections.Counter()
     distinct, nontrivial, samples = set(), 0, []
     n_dump = n_dumpf = n_ans = 0
+    failing = []
     for start, lines in hists:
         key = hashlib.sha256("\n".join(l for l in lines[1:] if l.startswith(("new", "op"))).encode()).hexdigest()
         first = key not in distinct
@@ -123,24 +124,40 @@ def run(ctx, prove=True):
             if len(samples) < 2:
                 samples.append(lines[:12])
         if bad:
-            # the first real:… failure of the case (if any) decides; otherwise the first model:… difference
-            real = [(i, d) for i, d in bad if d.startswith("real:")]
-            i, d = (real or bad)[0]
-            obl = d.split()[0]
-            ops = [l for l in lines[: i + 1] if l.split()[0] in ("hist", "new", "op", "call")]
-            replay = {"history": lines[: i + 1], "ops": ops, "driver": "pplv_mip", "driver_args": ["--tab"], "verdict": d,
-                      "site": _site(obl), "all_mismatches": [x[1][:300] for x in bad[:6]],
-                      "replay_cmd": "harness c06_tab --replay <file with the `ops` lines> | pplv_mip --tab",
-                      "harness_args": cmd[1:]}
-            if real:
-                what = ("MIP_Problem LP machinery: the real answer contradicts the verified reference: %s | event: %s"
-                        % (d[:600], lines[i][:200]))
-                ctx.violation(what, replay, found_input=True, record={"site": _site(obl), "tags": [obl]})
-            else:
-                what = ("MIP_Problem LP machinery: the private state after %s differs from the code-shaped model (%s); "
-                        "every judged real answer of this case agrees with the reference | event: %s"
-                        % (next((x for x in reversed(lines[:i]) if x.startswith("call")), "?"), d[:500], lines[i][:160]))
-                ctx.violation(what, replay, found_input=False, record={"site": _site(obl), "tags": [obl]})
+            failing.append((start, lines, bad))
+
+    # report: real answers first; at most 3 cases per obligation and 12 in all (the rest is counted)
+    def _key(f):
+        return 0 if any(d.startswith("real:") for _, d in f[2]) else 1
+    failing.sort(key=_key)
+    per_site, reported, n_real, n_model = collections.Counter(), 0, 0, 0
+    for start, lines, bad in failing:
+        # the first real:… failure of the case (if any) decides; otherwise the first model:… difference
+        real = [(i, d) for i, d in bad if d.startswith("real:")]
+        i, d = (real or bad)[0]
+        obl = d.split()[0]
+        if real:
+            n_real += 1
+        else:
+            n_model += 1
+        if per_site[obl] >= 3 or reported >= 12:
+            continue
+        per_site[obl] += 1
+        reported += 1
+        ops = [l for l in lines[: i + 1] if l.split()[0] in ("hist", "new", "op", "call")]
+        replay = {"history": lines[: i + 1], "ops": ops, "driver": "pplv_mip", "driver_args": ["--tab"], "verdict": d,
+                  "site": _site(obl), "all_mismatches": [x[1][:300] for x in bad[:6]],
+                  "replay_cmd": "harness c06_tab --replay <file with the `ops` lines> | pplv_mip --tab",
+                  "harness_args": cmd[1:], "failing_cases_in_this_run": len(failing)}
+        if real:
+            what = ("MIP_Problem LP machinery: the real answer contradicts the verified reference: %s | event: %s"
+                    % (d[:600], lines[i][:200]))
+            ctx.violation(what, replay, found_input=True, record={"site": _site(obl), "tags": [obl]})
+        else:
+            what = ("MIP_Problem LP machinery: the private state after %s differs from the code-shaped model (%s); "
+                    "every judged real answer of this case agrees with the reference | event: %s"
+                    % (next((x for x in reversed(lines[:i]) if x.startswith("call")), "?"), d[:500], lines[i][:160]))
+            ctx.violation(what, replay, found_input=False, record={"site": _site(obl), "tags": [obl]})
 
     def srt(c):
         return {k: c[k] for k in sorted(c, key=lambda x: (len(x), x))}
@@ -157,6 +174,7 @@ def run(ctx, prove=True):
         "artificials_per_first_phase": srt(arts), "rows_made_unfeasible_by_remerge": srt(unfeas),
         "redundant_rows_erased": srt(redund), "pivots_first_phase": srt(piv1), "pivots_second_phase": srt(piv2),
         "status_after_dump": dict(status_c), "flavours": srt(flavour_c), "samples": samples,
+        "cases_with_wrong_real_answer": n_real, "cases_with_model_difference_only": n_model,
         "driver_summary": summary, "harness_s": round(t_h - t0, 1), "driver_s": round(t_d - t_h, 1),
         "wall_s": round(time.time() - t0, 1),
     }
